@@ -11,10 +11,11 @@ def hashOps : Handler := fun st f =>
     | .error .decode => some (st, "err decode")
     | .error .short => some (st, "err short")
   | ["cfg", l, t, d, dd, cf, tob, gg, bid] =>
-    let c : Cfg := { seed := st.cfg.seed, literals := (l == "1"), tiny := (t == "1"), debug := (d == "1"),
+    let c : Cfg := { seed := st.cfg.seed, xTargets := st.cfg.xTargets, literals := (l == "1"), tiny := (t == "1"), debug := (d == "1"),
                      debugDir := unhex dd, ctrlflow := (cf == "1"), testObf := unhex tob,
                      gogarble := unhex gg, binaryID := unhex bid }
     some ({ st with cfg := c }, "ok")
+  | "ldx" :: vals => some ({ st with cfg := { st.cfg with xTargets := linkerVariableNames (vals.map unhex) } }, "ok")
   | ["pkg", p, g] => some ({ st with pkgs := (unhex p, (unhex g ++ List.replicate 32 0).take 32) :: st.pkgs.filter (·.1 != unhex p) }, "ok")
   | ["hash", salt, name, cls] => some (st, optHex (hashWithCustomSalt st.cfg (unhex salt) (unhex name) (clsOf cls)))
   | ["hpkg", p, name, cls] =>
